@@ -594,6 +594,8 @@ func runC08(args []string) {
 	c08CwdWatcher()
 	// (4) the saver's shared decompression model: access recording of a real save
 	c08SaverProbe()
+	// (5) search support for state shared through package-level variables: concurrent runs under a limit, Detail/JSON
+	c08LimitSearch(tier)
 	// (3) real scenarios in child processes
 	p := newPrng(0xC08)
 	t0s := []float64{1, 10, 50.5, 1000, 0.1, 123456.789}
